@@ -24,6 +24,23 @@ Proof.
   unfold lock_stale_factor, lock_freshness_interval. lia.
 Qed.
 
+(** The statement-level shape of the lock code that the labels of the LTS are built on,
+    re-read from filestorage.go by the translator on every run: the create is O_EXCL and
+    starts the heartbeat; the heartbeat sleeps lockFreshnessInterval, then opens, compares
+    Created, truncates, writes, syncs in this order; Unlock removes the lock file by name;
+    every select in Lock returns ctx.Err() on ctx.Done(); the stale branch removes the file
+    by name and retries; staleness is judged on Updated, or Created when Updated is zero. *)
+Theorem C08_code_shape_as_modelled :
+  lock_create_is_excl = true /\ lock_create_starts_heartbeat = true /\
+  lock_hb_period = lock_freshness_interval /\
+  lock_hb_open_truncate_write_sync = true /\ lock_hb_check_before_truncate = true /\
+  lock_unlock_removes_lock_file = true /\
+  (lock_selects_with_ctx = lock_selects /\ 0 < lock_selects) /\
+  lock_stale_branch_removes_and_retries = true /\ lock_uses_one_file_name = true /\
+  lock_stale_ref_updated_else_created = true /\ lock_empty_count_resets = true.
+Proof. repeat split; reflexivity. Qed.
+Print Assumptions C08_code_shape_as_modelled.
+
 (** Mutual exclusion.  For any number of threads in any number of processes and every
     interleaving of their steps, as long as every holder is alive - no process is killed
     while one of its threads has created or holds the lock file; kills of waiters and of
